@@ -72,6 +72,9 @@ func (c13) Configure(r *e.RNG, tier string) e.Config {
 		c.MaxSupply = supply.String() // exactly at the cap
 	case 3:
 		c.MaxSupply = new(big.Int).Sub(supply, big.NewInt(r.Range(1, 1000))).String() // already above
+		if r.Chance(0.3) {
+			c.MaxSupply = "0" // a maximum of zero is still a maximum: every supply is above it
+		}
 	}
 	return c
 }
